@@ -10,8 +10,11 @@ import (
 	"os"
 	"runtime"
 	"runtime/debug"
+	"runtime/metrics"
 	"sort"
+	"strconv"
 	"strings"
+	"sync/atomic"
 	"testing"
 	"testing/synctest"
 	"time"
@@ -355,6 +358,7 @@ func Main(t *testing.T, p *Property) {
 			t.Fatalf("write out: %v", err)
 		}
 	}()
+	go memoryGuard(&cfg, p.ID)
 	if cfg.Replay != "" {
 		replay(t, p, &cfg, out)
 		return
@@ -399,6 +403,8 @@ func Main(t *testing.T, p *Property) {
 		}
 		sc := p.pick(run)
 		seed := runSeed(cfg.Seed, run)
+		curRun.Store(int64(run))
+		curScenario.Store(sc.Name)
 		if progress {
 			var ms runtime.MemStats
 			runtime.ReadMemStats(&ms)
@@ -727,13 +733,57 @@ func replay(t *testing.T, p *Property, cfg *WorkerCfg, out *WorkerOut) {
 	}
 	out.Violation = c.Viol
 	fmt.Printf("REPLAY: violation oracle=%s op=%s detail=%s\n%s\n", c.Viol.Oracle, c.Viol.Op, c.Viol.Detail, c.Viol.Message)
-	if c.Viol.Sig() == rf.Violation.Sig() && h == rf.EventHash {
+	// A race report names the pair of accesses the detector happened to still
+	// remember (its shadow cells are evicted at random): the same schedule can
+	// yield "ClientJoin vs Len" once and "ClientLeft vs Len" the next time. For
+	// this oracle the schedule (event hash) and the oracle must match, the
+	// named pair may differ.
+	sameRace := c.Viol.Oracle == "data-race" && rf.Violation.Oracle == "data-race"
+	if (c.Viol.Sig() == rf.Violation.Sig() || sameRace) && h == rf.EventHash {
 		out.ReplayOK = true
+		if c.Viol.Sig() != rf.Violation.Sig() {
+			out.ReplayNotes = fmt.Sprintf("same schedule, the detector named another pair: %q (recorded %q)", c.Viol.Sig(), rf.Violation.Sig())
+		}
 	} else {
 		out.ReplayNotes = fmt.Sprintf("signature %q vs recorded %q; hash %s vs recorded %s", c.Viol.Sig(), rf.Violation.Sig(), h, rf.EventHash)
 	}
 	if cfg.WeaveDig != "" && rf.WeaveDig != "" && cfg.WeaveDig != rf.WeaveDig {
 		fmt.Println("REPLAY: note: woven sources differ from when the file was written")
+	}
+}
+
+// ---------------------------------------------------------------- memory guard
+
+var (
+	curRun      atomic.Int64
+	curScenario atomic.Value
+)
+
+// memoryGuard ends the worker with an infrastructure result (never a verdict)
+// when its heap passes a limit: the sandbox has no memory limit of its own and
+// code under test that has lost its place in a stream may allocate without
+// bound. It runs outside every bubble and reads only the real clock.
+func memoryGuard(cfg *WorkerCfg, prop string) {
+	limit := uint64(10 << 30)
+	if s := os.Getenv("VERIF_MEM_LIMIT_MB"); s != "" {
+		if v, err := strconv.ParseUint(s, 10, 64); err == nil && v > 0 {
+			limit = v << 20
+		}
+	}
+	sample := []metrics.Sample{{Name: "/memory/classes/heap/objects:bytes"}}
+	for {
+		time.Sleep(200 * time.Millisecond)
+		metrics.Read(sample)
+		if sample[0].Value.Kind() != metrics.KindUint64 || sample[0].Value.Uint64() < limit {
+			continue
+		}
+		sc, _ := curScenario.Load().(string)
+		msg := fmt.Sprintf("memory guard: live heap %d MiB above the limit of %d MiB during run %d (scenario %s) - worker stopped",
+			sample[0].Value.Uint64()>>20, limit>>20, curRun.Load(), sc)
+		b, _ := json.Marshal(&WorkerOut{Property: prop, Worker: cfg.Worker, Build: cfg.Build, Infra: msg})
+		_ = os.WriteFile(cfg.Out, b, 0o644)
+		fmt.Fprintln(os.Stderr, msg)
+		os.Exit(3)
 	}
 }
 
